@@ -33,6 +33,13 @@ TB_EVAL = [
     "Go reflect / strconv / float64 arithmetic as modelled by Lean's Int64/UInt64/Float; float->int conversion of "
     "unrepresentable values is implementation defined and excluded (marked unspec, skipped)",
 ]
+TB_POOL = [
+    "Lean 4.33 kernel; axioms allowed: propext, Classical.choice, Quot.sound (audited per theorem)",
+    "hand-written Lean models of the pool: management operations over rule-container values (GV.Pool.Mgmt), free-list / in-flight / put-goroutine bookkeeping as a transition system (GV.Pool.Cap); tied to the code by facts regenerated from engine/gengine_pool.go on every run (shape of every Execute* method, of getGengine / putGengineLocked, in-place stores into containers, locking of updates: GV.Generated.Pool) and by differential runs against the real pool",
+    "rule container model of C08 and compile outcome of C10 as parameters",
+    "/verif/extract, /verif/harness (parking gates, logical clock), /verif/checklib comparator",
+    "sync.Mutex / goroutine semantics as modelled (atomic steps under getEngineLock, put goroutine as a separate step), not verified; Go scheduler fairness assumed",
+]
 EVAL_FP = ["internal/base:", "context:", "internal/core:", "internal/iter:", "internal/iparser:"]
 
 PROPS = {
@@ -154,6 +161,33 @@ PROPS = {
         "fingerprints": ["builder:", "engine:getKc", "engine:makeRuleBuilder", "engine:UpdatePooledRules", "engine:NewGenginePool", "internal/iparser:"],
         "assumptions": [],
     },
+    "C06": {
+        "lean": ["GV.Props.C06"],
+        "scenarios": [{"scn": "pool", "filter": "iso", "n": {"quick": 120, "thorough": 1500},
+                       "aspects": ["iso", "leak", "mutated", "exec", "crash", "driver", "build"]},
+                      {"scn": "pool", "filter": "cap", "n": {"quick": 60, "thorough": 800},
+                       "aspects": ["iso", "crash", "driver", "build"]}],
+        "rule": "pools (1,2) (2,3) (1,3) (2,4), all four execution models, 1-3 rules; K <= max simultaneous requests with unique ids, all parked inside their rules at the same time, each rule writes the id into the request's own object before and after parking and returns version*1000+id; then a request that injects nothing (must fail to see q), then more traffic and a comparison of the result maps handed out earlier; cap mode: more clients than instances, a third of them failing",
+        "trusted_base": TB_POOL, "fingerprints": ["engine:"],
+        "assumptions": ["rule bodies reach injected data only through the instance's data context (C03, C15)"],
+    },
+    "C16": {
+        "lean": ["GV.Props.C16"],
+        "scenarios": [{"scn": "pool", "filter": "mgmt", "n": {"quick": 150, "thorough": 2000},
+                       "aspects": ["op", "query", "exec", "crash", "iso", "driver", "build"]}],
+        "rule": "random sequences of 2-8 management operations (full / incremental updates with 1-3 rules over 6 names, rejected texts, removals incl. unknown and empty name lists, clear, SetExecModel incl. invalid values) on pools (1,2) (2,3) (1,3) (2,4); after every operation all queries and max simultaneous parked requests, so that every instance - initial and additional - executes; non-trivial = at least one operation",
+        "trusted_base": TB_POOL, "fingerprints": ["engine:", "builder:"],
+        "assumptions": [],
+    },
+    "C17": {
+        "lean": ["GV.Props.C17"],
+        "scenarios": [{"scn": "pool", "filter": "cap", "n": {"quick": 120, "thorough": 1500},
+                       "aspects": ["capacity", "exec", "crash", "driver", "build"]}],
+        "rule": "max+1 .. max+4 clients on pools (1,2) (2,3) (1,3) (2,4), every rule parks in an injected function, a third of the requests fail (panicking injected function); peak number of requests simultaneously inside their rules, completion of all clients after the gate opens, and a second round of max simultaneous requests",
+        "trusted_base": TB_POOL + ["peak concurrency is measured with a settle timeout (0.5 s / 0.8 s): a slower machine can only under-count, reported as correspondence break, never as a violation of at-most-max"],
+        "fingerprints": ["engine:"],
+        "assumptions": ["Go scheduler fairness (a spinning getGengine caller eventually obtains the lock)"],
+    },
     "C15": {
         "lean": ["GV.Props.C15"],
         "scenarios": [{"scn": "eval", "filter": "locals", "n": {"quick": 200, "thorough": 3000},
@@ -238,6 +272,18 @@ MANIFEST_TEXT["C10"] = {
     "text": "Proof: over the event lists regenerated from the five entry points' sources and the whole (finite) table of front-end outcomes: every error is reported before the installed set is first written (all-or-nothing); every entry point accepts exactly the texts against which lexer, parser and listener report nothing (same language, rejected by one iff by all); a repeated rule name makes the listener record an error (fold lemma over the regenerated duplicate check) and every entry point reject. Differential runs submit mutated texts to all entry points and compare accept vectors and the installed set before/after with model and spec. Partial: that the ANTLR front end returns normally on every byte string is exercised (mutation stream under recover), not proved.",
     "note": "Model = event lists regenerated on every run (T1); front end is a parameter observed through a verif hook; trusted: Lean kernel, extractor, harness, comparator.",
     "technique": "Lean 4 kernel-decided theorems over regenerated entry-point descriptors + list induction for duplicates + differential mutation runs"}
+MANIFEST_TEXT["C16"] = {
+    "text": "Proof: refinement of the pool's management operations (full / incremental update, removal, clear, SetExecModel) to the denoted (rule set, cleared, model): every operation keeps the invariant (master and every instance hold well-formed containers denoting the same set), changes the denoted set as specified and answers as specified - so no sequence panics - lifted to every finite history; queries answer from the denoted set; every instance, initial or additional, runs exactly the denoted set in salience order; a cleared pool runs nothing and a full or incremental update brings it back. Differential runs compare every operation, all queries and one execution per instance with model and spec.",
+    "note": "Model hand-written over container values; that updates never write into a published container is a regenerated fact (GV.Generated.Pool.inPlaceStores) used by C07. Trusted: Lean kernel, extractor, harness, comparator.",
+    "technique": "Lean 4 refinement proof over operation histories + differential management sequences with per-instance executions"}
+MANIFEST_TEXT["C17"] = {
+    "text": "Proof: invariant of the free-list / in-flight / put-goroutine transition system for any number of clients, any min <= max, every interleaving: the tags on the two lists, in flight and on their way back are a permutation of 0..max-1; hence at most max in flight, no instance handed to two requests, all instances back when nothing is in flight, acquire enabled whenever a list is non-empty, some step enabled unless idle. Regenerated facts: every pool Execute* method releases in a deferred function installed right after prepare (so on return, error and panic alike); getGengine / putGengineLocked have the modelled shape. Differential runs measure peak concurrency with more clients than instances, failing requests, and capacity afterwards.",
+    "note": "Liveness = enabledness + scheduler fairness (assumed). Trusted: Lean kernel, extractor, harness, comparator.",
+    "technique": "Lean 4 invariant proof over an interleaving transition system + regenerated method-shape facts + differential concurrency runs"}
+MANIFEST_TEXT["C06"] = {
+    "text": "Proof: (1) in every reachable state of the pool transition system an instance has at most one holder and its data context holds request keys of that holder only, none when idle or on its way back; (2) every engine execution method allocates a fresh result map and writes exactly what its rules returned (C11's theorem over regenerated skeletons), so a map handed back holds only that request's values and is never written again; (3) regenerated facts: every pool method deletes exactly the keys it injected in the deferred clean-up before handing the instance back. Differential runs: simultaneous parked requests with unique ids echoing them into results and their own objects, a later request that injects nothing, result maps compared after later traffic.",
+    "note": "Rule bodies reach data only through the instance's private data context (C03, C15): that part is by the evaluator model, not re-proved here. Trusted: Lean kernel, extractor, harness, comparator.",
+    "technique": "Lean 4 invariant proof over an interleaving transition system + regenerated facts + differential isolation runs"}
 MANIFEST_TEXT["C09"] = {"text": "Proof: engine level: for every ResultsWF skeleton (all 21 extracted ones) no execution method panics; rule level: with the recover at RuleEntity.Execute (fact regenerated from source) no rule body and no data make the rule's execution panic, an unbounded for loop is cut off with an error after maxExecuteNum iterations, and the interpreter model is total. Differential fault injection: ill-typed programs, panicking injected functions, unbounded loops, failing conc children, in a child process with a hang timeout.",
     "note": ORCH_NOTE + " " + EVAL_NOTE, "technique": "Lean 4 no-panic theorems over regenerated skeletons and facts + totality of the interpreter model + fault-injection differential runs"}
 
